@@ -38,7 +38,7 @@ GAP = ("order of callbacks of different watchers inside one quiescence step (com
        "multi-authority channel sharing")
 ASSUMPTIONS = ["every watch registers a watcher object that is not currently registered", "decoder errors are compared by their string",
                "the backoff function is the constant 1 s and the watch expiry 2505 ms passed by the harness"]
-RULE = ("random histories (6-70 events) for 1-3 servers with random ignore_resource_deletion bits: watch/unwatch of 3 names over 2 types "
+RULE = ("30% directed skeletons (accept/reject/re-accept, SotW removal with and without ignore_resource_deletion, watch expiry incl. a cached resource expiring on a fallback server, rejected-with-nothing-cached, stream failures before/after the first response, last watcher leaves) followed by a random tail; 70% random histories (6-70 events) for 1-3 servers with random ignore_resource_deletion bits: watch/unwatch of 3 names over 2 types "
         "(one with AllResourcesRequiredInSotW) + an unknown type, responses from any server with valid / invalid / nameless resources and "
         "fresh or repeated versions, stream breaks, servers going down/up, sleeps around the 1 s backoff and the 2505 ms watch expiry, "
         "hold/release of the authority's serializer (events queue up and are processed in order), close. Non-trivial: at least 3 ops "
@@ -130,12 +130,54 @@ def gen_ops(rng, ln, n, allow_hold=True, weights=None):
     return ops
 
 
+def directed(rng, n):
+    """Skeletons for the rarer clauses; a random tail follows."""
+    k = rng.randrange(6)
+    c = rng.choice(CONTENTS)
+    if k == 0:      # accept, reject twice with the same / another error, accept the same content again
+        e1, e2 = rng.choice(TAGS), rng.choice(TAGS)
+        return ["watch T r1 1", "respond 0 T v1 r1:ok:%s" % c, "respond 0 T v2 r1:bad:%s" % e1, "watch T r1 2",
+                "respond 0 T v3 r1:bad:%s" % e2, "respond 0 T v4 r1:ok:%s" % c, "respond 0 T v5 r1:ok:%s" % c]
+    if k == 1:      # removal from a state-of-the-world response, with and without ignore_resource_deletion
+        return ["watch T r1 1", "watch T r2 2", "watch U r1 3", "respond 0 T v1 r1:ok:%s,r2:ok:c2" % c, "respond 0 U v1 r1:ok:c1",
+                "respond 0 T v2 r2:ok:c2", "respond 0 U v2 -", "watch T r1 4", "respond 0 T v3 r1:ok:%s,r2:ok:c2" % c, "respond 0 T v4 -"]
+    if k == 2:      # watch expiry, then the resource arrives; a cached resource re-requested on a fallback server expires
+        ops = ["watch T r1 1", "sleep 2510", "watch T r1 2", "respond 0 T v1 r1:ok:%s" % c]
+        if n > 1:
+            ops += ["watch T r2 3", "down 0", "break 0", "sleep 1000", "sleep 2510", "watch T r1 4"]
+        return ops
+    if k == 3:      # rejected with nothing cached, new watcher, then accepted
+        e = rng.choice(TAGS)
+        return ["watch T r1 1", "respond 0 T v1 r1:bad:%s" % e, "watch T r1 2", "respond 0 T v2 r1:bad:%s" % e,
+                "respond 0 T v3 r1:ok:%s" % c, "watch T r1 3"]
+    if k == 4:      # stream failures before / after the first response, cached and uncached watchers
+        return ["watch T r1 1", "respond 0 T v1 r1:ok:%s" % c, "watch T r2 2", "break 0", "sleep 10", "down 0", "break 0",
+                "sleep 1000", "sleep 1000", "up 0", "sleep 1000"]
+    # last watcher leaves, resource watched again
+    return ["watch T r1 1", "watch T r1 2", "respond 0 T v1 r1:ok:%s" % c, "unwatch 1", "unwatch 2", "watch T r1 3",
+            "respond 0 T v2 r1:ok:%s" % c, "watch U r2 4", "unwatch 4"]
+
+
 def gen(rng, tier):
-    n, ln = {"quick": (250, 40), "thorough": (6000, 70), "search": (3000, 50)}[tier]
+    n, ln = {"quick": (250, 40), "thorough": (12000, 70), "search": (3000, 50)}[tier]
     for i in range(n):
         ns = rng.choice([1, 1, 2, 2, 3])
         ign = "".join(rng.choice("001") for _ in range(ns))
-        ops = ["cfg %d %s c43" % (ns, ign)] + gen_ops(rng, rng.randrange(6, ln), ns, allow_hold=rng.random() < 0.5)
+        ops = ["cfg %d %s c43" % (ns, ign)]
+        if rng.random() < 0.3:
+            ops += directed(rng, ns)
+            tail = gen_ops(rng, rng.randrange(0, ln // 2), ns, allow_hold=rng.random() < 0.4)
+            # the skeleton used watcher ids 1..4: shift the tail's ids
+            def shift(t):
+                f = t.split(" ")
+                if f[0] == "watch":
+                    f[3] = str(int(f[3]) + 10)
+                elif f[0] == "unwatch" and rng.random() < 0.6:
+                    f[1] = str(int(f[1]) + 10)
+                return " ".join(f)
+            ops += [shift(t) for t in tail]
+        else:
+            ops += gen_ops(rng, rng.randrange(6, ln), ns, allow_hold=rng.random() < 0.5)
         yield Case("s_xdsauth", ops, "xdsauth-%d" % i)
 
 
